@@ -101,3 +101,38 @@ Definition anchored_schema (S : schema) (F : features) : schema :=
                                              | _ => false
                                              end) (types E));
      directives := directives E |}.
+
+(** the same, with every custom scalar made one that accepts every literal (how the rebuild
+    clause is compared when the original has scalars that reject literals) *)
+Definition force_accept (S : schema) : schema :=
+  {| types := map (fun t => (fst t, match snd t with NScalar false _ r d => NScalar false true r d | x => x end)) (types S);
+     query := query S; mutation := mutation S; subscription := subscription S; additional := additional S;
+     directives := directives S |}.
+
+(** ** well-formedness the rebuild clause relies on (all of it enforced by schema.New or by Go's
+    type system) *)
+
+(** a type is named like a built-in scalar exactly when it is that built-in (schema.go:85-86), and
+    built-ins have no description and no required features *)
+Definition builtins_consistent (S : schema) : bool :=
+  forallb (fun t => match snd t with
+                    | NScalar true _ r d => is_builtin_name (fst t) && match r, d with [], [] => true | _, _ => false end
+                    | _ => negb (is_builtin_name (fst t))
+                    end) (types S).
+
+(** Go's static types: the root operation types and union members are objects, declared
+    interfaces are interfaces *)
+Definition is_kind (S : schema) (k : kind) (n : name) : bool :=
+  match lookup n (types S), k with
+  | Some (NObject _ _ _ _), KObject => true
+  | Some (NInterface _ _ _), KInterface => true
+  | _, _ => false
+  end.
+Definition kinds_ok (S : schema) : bool :=
+  is_kind S KObject (query S)
+  && forallb (is_kind S KObject) (opt_list (mutation S) ++ opt_list (subscription S))
+  && forallb (fun t => match snd t with
+                       | NObject _ ifs _ _ => forallb (is_kind S KInterface) ifs
+                       | NUnion ms _ _ => forallb (is_kind S KObject) ms
+                       | _ => true
+                       end) (types S).
